@@ -3,6 +3,7 @@
 reverts, and writes seeded/MATRIX.json + seeded/MATRIX.md.  Do not run other checks concurrently."""
 import json, os, subprocess, sys
 ROOT = os.path.dirname(os.path.dirname(os.path.abspath(__file__)))
+REPO = os.environ.get("VERIF_REPO", "/repo")
 seeds = sorted(d for d in os.listdir(os.path.join(ROOT, "seeded")) if os.path.isdir(os.path.join(ROOT, "seeded", d)))
 checks = sys.argv[1:] or [f"C{n:02d}" for n in range(1, 20)]
 only = os.environ.get("SEEDS")
@@ -12,7 +13,7 @@ mpath = os.path.join(ROOT, "seeded", "MATRIX.json")
 matrix = json.load(open(mpath)) if os.path.exists(mpath) else {}
 for s in seeds:
     patch = os.path.join(ROOT, "seeded", s, "patch.diff")
-    if subprocess.run(["git", "-C", "/repo", "apply", patch]).returncode != 0:
+    if subprocess.run(["git", "-C", REPO, "apply", patch]).returncode != 0:
         matrix[s] = {"error": "patch does not apply"}
         continue
     row = matrix.get(s, {})
@@ -27,7 +28,7 @@ for s in seeds:
             else:
                 row[c] = "INPUT"
     finally:
-        subprocess.run(["git", "-C", "/repo", "checkout", "--", "."])
+        subprocess.run(["git", "-C", REPO, "checkout", "--", "."])
     matrix[s] = row
     json.dump(matrix, open(mpath, "w"), indent=1)
     print(s, row, flush=True)
